@@ -1164,3 +1164,61 @@ func compiledSourceLeaves(v ssa.Value, depth int) string {
 	}
 	return trunc(v.String(), 40)
 }
+
+// --- R-CMPNORM: an integer json.Number is compared as the integer it denotes ----------------------
+
+var ruleCmpNorm = &Rule{
+	Name: "R-CMPNORM", NeedSSA: true,
+	Doc: "the function that normalises a json.Number operand for comparison (func(any) (any, bool) in package exec that calls json.Number.Int64) reaches no int64→float64 conversion: a number that parses as an integer is compared as that integer, whatever its value, so json.Number, int64 and float64 operands order consistently",
+	Run: func(p *Prog) *RuleOut {
+		out := newOut("R-CMPNORM")
+		n := 0
+		for _, fn := range p.execFuncs() {
+			sig := fn.Signature
+			if sig.Recv() != nil || sig.Params().Len() != 1 || sig.Results().Len() != 2 {
+				continue
+			}
+			if it, ok := sig.Params().At(0).Type().Underlying().(*types.Interface); !ok || it.NumMethods() != 0 {
+				continue
+			}
+			if b, ok := sig.Results().At(1).Type().Underlying().(*types.Basic); !ok || b.Kind() != types.Bool {
+				continue
+			}
+			reach := p.reachFrom([]*ssa.Function{fn})
+			callsInt64 := false
+			var conv []string
+			for _, f := range moduleFuncs(reach.Set) {
+				for _, b := range f.Blocks {
+					for _, ins := range b.Instrs {
+						switch x := ins.(type) {
+						case *ssa.Call:
+							if calleeQualified(&x.Call) == "encoding/json.Int64" {
+								callsInt64 = true
+							}
+						case *ssa.Convert:
+							if isInt64(x.X.Type()) && isFloat64(x.Type()) {
+								conv = append(conv, fnName(f)+" at "+p.pos(x.Pos()))
+							}
+						}
+					}
+				}
+			}
+			if !callsInt64 {
+				continue
+			}
+			n++
+			key := fnName(fn) + " keeps integers integral"
+			if len(conv) == 0 {
+				out.ok(key, p.pos(fn.Pos()), fnName(fn), "no int64→float64 conversion reachable")
+			} else {
+				sort.Strings(conv)
+				out.viol(key, p.pos(fn.Pos()), fnName(fn), "the comparison normaliser can turn an integer into a double ("+conv[0]+"): that integer then compares equal to its neighbours within the double's rounding, and differently from the same value given as int64", conv...)
+			}
+		}
+		out.Counts["comparison_normalisers"] = n
+		out.Floors["comparison_normalisers"] = 1
+		return out
+	},
+}
+
+func init() { register(ruleCmpNorm) }
